@@ -67,6 +67,16 @@ CLAIMED = {
              "are assumed not to write working-counter bytes.",
         technique="Coq proof over all frames/devices + differential correspondence on a simulated bus",
         ref="7/C30"),
+    "C17": dict(
+        text="Theorems C17_read_one (8 image bytes per access for both interface widths and any junk), C17_categories (for ANY image whose category area is the "
+             "SII encoding of any category list: identity fields and every category returned exactly; proved by an invariant of the buffered reader), "
+             "C17_sync_managers, C17_pdo_entries (decoders invert the SII encoders, by induction over entry lists), C17_pdo_layout / _total (offsets and bit "
+             "positions are the running sums of the stored lengths). Tied to the code by running Terminal.read_eeprom/parse_sync_managers/parse_pdos through "
+             "the real roundtrip/sendloop against a simulated ESC EEPROM interface (4/8-byte reads, random busy polls) on random SII images.",
+        note=TB + "Modelled: _eeprom_read_one, read_eeprom, parse_sync_managers, parse_pdos (EEPROM source) in Ecat/Eeprom.v; busy polling is abstracted (the loops "
+             "skip busy replies), the SDO source of parse_pdos is not modelled; harness/sim_bus.py EEPROM interface trusted.",
+        technique="Coq proof (reader invariant + codec inversion by induction) + differential correspondence on a simulated EEPROM interface",
+        ref="7/C17"),
 }
 
 REASONS_NOT_YET = "no check built yet in this round (planned, see DESIGN.md section 7); nothing is claimed for it"
